@@ -254,6 +254,27 @@ def main(argv=None):
                               str(nshards), str(per[i]), out], cwd=env.VERIF, env=dict(child_env),
                              stdin=subprocess.DEVNULL, stdout=log, stderr=subprocess.STDOUT)
         procs.append((i, p, out, log))
+    # coverage-guided shards (vlib/fuzz_shard.py): libFuzzer (atheris) drives the same strategy, guided by coverage of the
+    # pure-Python repository modules named in the module's FUZZ['instrument']
+    fz = getattr(prop, 'FUZZ', None)
+    nfuzz = 0
+    fuzz_stats = {'shards': 0, 'evaluations': 0, 'fuzzer_inputs': 0, 'instrumented_functions': 0, 'final_cov': []}
+    if fz and os.environ.get('VERIF_NO_FUZZ') != '1':
+        nfuzz = int(fz.get('shards', {}).get(args.tier, 0))
+        per_f = int(fz.get('cases', {}).get(args.tier, 0)) // max(1, nfuzz)
+        if args.cases is not None:
+            per_f = min(per_f, max(50, args.cases // nshards))
+        for j in range(nfuzz if per_f > 0 else 0):
+            i = nshards + j
+            out = os.path.join(work, 'fuzz%02d' % j)
+            log = open(out + '.log', 'w')
+            child_env['VERIF_CACHE_ROLE'] = '%s-fuzz%02d' % (prop.ID, j)
+            if golden is not None:
+                _seed_role_dir(golden, os.path.join(env.NBCACHE, key, child_env['VERIF_CACHE_ROLE']))
+            p = subprocess.Popen([env.PY, '-u', '-m', 'vlib.fuzz_shard', modname, args.tier, str(seed), str(j),
+                                  str(nfuzz), str(per_f), out], cwd=env.VERIF, env=dict(child_env),
+                                 stdin=subprocess.DEVNULL, stdout=log, stderr=subprocess.STDOUT)
+            procs.append((i, p, out, log))
     merged = {'evaluations': 0, 'ok': 0, 'failed_cases': 0, 'discards': {}, 'labels': {}, 'samples': [],
               'discard_sample': None, 'fail_records': [], 'fail_sig_counts': {}, 'fixed_cases': 0}
     import numpy as np
@@ -277,6 +298,19 @@ def main(argv=None):
             d = json.load(fh)
         if d.get('harness_error'):
             harness_errors.append('shard %d: %s' % (i, d['harness_error']))
+        if d.get('fuzz'):
+            fuzz_stats['shards'] += 1
+            fuzz_stats['evaluations'] += d.get('evaluations', 0)
+            fuzz_stats['fuzzer_inputs'] += d.get('fuzz_inputs', 0)
+            fuzz_stats['instrumented_functions'] = max(fuzz_stats['instrumented_functions'], d.get('instrumented_functions', 0))
+            try:
+                import re
+                with open(out + '.log') as fh:
+                    covs = re.findall(r'cov: (\d+) ft: (\d+) corp: (\d+)', fh.read())
+                if covs:
+                    fuzz_stats['final_cov'].append({'edges': int(covs[-1][0]), 'features': int(covs[-1][1]), 'corpus': int(covs[-1][2])})
+            except Exception:  # noqa
+                pass
         for k in ('evaluations', 'ok', 'failed_cases', 'fixed_cases'):
             merged[k] += d.get(k, 0)
         for k in ('discards', 'labels', 'fail_sig_counts'):
@@ -370,6 +404,7 @@ def main(argv=None):
         'rebuilt_extensions': binfo['rebuilt'],
         'numba_cache_key': key,
         'shards': nshards,
+        'coverage_guided': fuzz_stats if nfuzz else None,
         'inconclusive_timeout': inconclusive,
         'violation_signatures': [v['signature'] for v in violations][:20],
     }
